@@ -1,4 +1,4 @@
-from bare_script.data import filter_data, add_calculated_field
+from bare_script.data import filter_data, add_calculated_field, join_data
 bad = []
 
 
@@ -39,4 +39,47 @@ def calculated():
     if got is not data or [r.get('twice') for r in data] != [0, 2, 4, 6, 8, 10, 12, 14, 16, 18]:
         bad.append({'what': 'add_calculated_field sets the value on every row of the same array', 'values': [r.get('twice') for r in data]})
 attempt('calculated field', calculated)
+
+
+def joins():
+    # dataJoin pairs each left row with the right rows whose key value is equal, in order, and never overwrites a left field:
+    # checked structurally (the left fields of every joined row are the left row's, every right value is present under a
+    # name that is not a left field, one name per right field) on tables whose field names collide in every way
+    import itertools
+    left_fields = [['a'], ['a', 'a2'], ['a', 'a2', 'a3'], ['a', 'b'], ['a', 'a3']]
+    right_fields = [['a'], ['a', 'a2'], ['a', 'b'], ['a', 'a2', 'a3', 'b']]
+    for lf, rf in itertools.product(left_fields, right_fields):
+        left = [{f: (k if f == 'a' else f'L{f}{k}') for f in lf} for k in (1, 2, 2, 3)]
+        right = [{f: (k if f == 'a' else f'R{f}{k}{j}') for f in rf} for j, k in enumerate((2, 1, 2, 4))]
+        got = join_data([dict(r) for r in left], [dict(r) for r in right], 'a')
+        want_pairs = [(l, r) for l in left for r in right if r['a'] == l['a']] + []
+        # rows in left order; a left row without a match appears once on its own (the default join keeps it)
+        expect = []
+        for l in left:
+            ms = [r for r in right if r['a'] == l['a']]
+            expect += [(l, r) for r in ms] if ms else [(l, None)]
+        if len(got) != len(expect):
+            bad.append({'what': 'dataJoin row count', 'left_fields': lf, 'right_fields': rf, 'rows': len(got), 'expected': len(expect)})
+            return
+        names = {}
+        for row, (l, r) in zip(got, expect):
+            if any(row.get(f) != l[f] for f in lf):
+                bad.append({'what': 'dataJoin overwrote a left field', 'left_fields': lf, 'right_fields': rf, 'left_row': l, 'joined': row})
+                return
+            extra = {k: v for k, v in row.items() if k not in lf}
+            if r is None:
+                if extra:
+                    bad.append({'what': 'unmatched left row has extra fields', 'joined': row})
+                    return
+                continue
+            if sorted(map(str, extra.values())) != sorted(map(str, r.values())) or len(extra) != len(rf):
+                bad.append({'what': 'dataJoin lost or duplicated a right value', 'left_fields': lf, 'right_fields': rf, 'right_row': r, 'joined': row})
+                return
+            for f in rf:
+                key = next(k for k, v in extra.items() if v == r[f] and (f != 'a' or k not in names.values() or names.get('a') == k))
+                if names.setdefault(f, key) != key:
+                    bad.append({'what': 'a right field is stored under different names in different rows', 'field': f, 'joined': row})
+                    return
+        names.clear()
+attempt('join', joins)
 result = {'violates': bool(bad), 'counterexamples': bad[:3]}
